@@ -143,6 +143,11 @@ inductive Label where
   | flush
   | shutdown
   | dropTx
+  /-- The `Sender` is shipped to another endpoint in mid-stream (`Serialize`): the size mode and the
+  byte counter travel along; the `bin::Sender` travels along only if it is in its slot.  While a
+  chunk is in flight the slot is empty (the `sending` future owns the port): the shipped sender
+  then has no port, and the future, dropped with the original object, takes chunk and port with it. -/
+  | moveTx
   /-- `poll_read` with `n` bytes of buffer space; `seg` is the length of the contiguous slice the
   current `DataBuf` offers (`0` = the whole rest; a message that travelled in several frames is
   handed out slice by slice) -/
@@ -404,6 +409,14 @@ def stepOut (cfg : Cfg) (s : State) : Label → Option (Out × State)
       some (.none, { s with tx := { s.tx with alive := false, binOpen := false, sending := none },
                             ch := dropTxChan s.tx s.ch,
                             lossless := s.lossless && s.tx.sending.isNone })
+    else none
+  | .moveTx =>
+    if txUsable s.tx then
+      match s.tx.sending with
+      | none => some (.none, s)
+      | some _ =>
+        some (.none, { s with tx := { s.tx with sending := none, binOpen := false }, ch := closeData s.ch,
+                              lossless := false })
     else none
   | .read n seg =>
     if rxUsable s.rx then
